@@ -985,6 +985,41 @@ func init() {
 				m.violate(violation{"C09", "counts", what, p})
 			}
 		}
+		// a deadline that cuts the run short (early exit): still no vacuous pass
+		for i := 0; i < 10*scale; i++ {
+			skipBelow := int(r.pick(0, 5, 10, 10))
+			src := fmt.Sprintf("((draw a (i 0 9)) (if (lt a %d) (skip)) (draw b (bool)))", skipBelow)
+			fl := baseFlags()
+			fl.Checks = int(r.pick(1, 5, 100))
+			fl.Seed = r.u64() | 1
+			run := &tbRun{tb: newRecTB("c09"), in: newInterp(mustSX(src), false)}
+			withFlags(fl, func() {
+				run.escaped = runTB(func() { rapid.VerifCheckTB(run.tb, time.Now().Add(-time.Second), run.in.prop) })
+			})
+			run.verdict = tbVerdict(run.tb)
+			kind, _, _ := verdictMsg(run.verdict)
+			valid := 0
+			for _, inv := range run.in.invs {
+				if inv.ended == "ret" {
+					valid++
+				}
+			}
+			what := ""
+			if kind == "pass" && valid == 0 {
+				what = fmt.Sprintf("passed without a single valid test case (%d invocations, all skipped) when the deadline cut the run short", len(run.in.invs))
+			}
+			if kind == "only" && run.tb.exited != "FailNow" {
+				what = "failed Check did not stop the test (FailNow)"
+			}
+			m.tag("early-exit-" + kind)
+			m.eval(src+fmt.Sprint(fl.Checks, fl.Seed, "early"), true)
+			if what != "" {
+				p := flagsStr(fl)
+				p["prog"] = src
+				p["deadline"] = "expired"
+				m.violate(violation{"C09", "counts", what, p})
+			}
+		}
 		// after the first falsified case no fresh random case is generated
 		for i := 0; i < 20*scale; i++ {
 			src := "((draw a (i 0 99)) (if (ge a 80) (fatal 1)))"
